@@ -294,3 +294,14 @@ def c16(r):
     r.exhaustive = True
     r.extra['bounds'] = 'all histories of length %d over 2 modules, 3 contexts (trusted, untrusted, clone of either)' % (3 if r.quick else 4)
     r.conform(scs, trace_module='Trace_C16', trace_cfg='Trace_C16.cfg', workers=16)
+
+
+@prop('C17')
+def c17(r):
+    r.assumptions += ['objects are those of the verification module libbloc_vobj (lives in /verif/harness), which logs create/method/destroy and keeps destroyed objects in a graveyard',
+                      'temporaries may delay a destruction until the contexts and programs are released (the property allows that)']
+    h = 2 if r.quick else 3
+    scs = r.gen('Gen_C17', 'Gen_C17.cfg', env={'GEN_DEPTH': str(h)}, timeout=3000)
+    r.exhaustive = True
+    r.extra['bounds'] = 'all sequences of <= %d statements from a pool of 27 reference-manipulating statements; clone/free orders; purge' % h
+    r.conform(scs, workers=16)
